@@ -550,6 +550,9 @@ def stepAt (all : List St) (w : St) (k0 : Nat) : List St → Nat → Step
   | _ :: t, k + 1 => stepAt all w k0 t k
 end
 
+/-- (Also makes Lean generate the equation lemmas of `step` here, once.) -/
+theorem step_nil : step .nil = .done := by rw [step]
+
 /-! ### Running a stream -/
 
 inductive Status where
